@@ -44,6 +44,8 @@ RT_ASSUME = COMMON_ASSUME + [
     "time advances only through opn2_generate (12/40 ms steps; 30 ms/5 s/120 s for C06) at 44100 Hz",
 ]
 
+FOCUS_OPS = r"noteOn\(0,6[02],100|noteOn\(0,41|noteOff\(0,(60|62|41|40)\)|cc\(0,64,|cc\(0,66,|patch\(0,[01]\)|generate\(40"
+FOCUS_OPS_C03 = r"noteOn\(0,6[02],100|noteOn\(0,41|noteOff\(0,(60|62|41|40)\)|cc\(0,64,|patch\(0,[01]\)|generate\((40|700)|setAutoArpeggio\(1"
 PROPS["C04"] = dict(
     level="model_checking", engine="mcx", title="voice-allocation bookkeeping stays consistent",
     technique="explicit-state model checking of the real real-time/sequencer/config API (BFS by history replay) with six structural invariants on the private bookkeeping and the 0x28 register tap after every call; library asserts enabled",
@@ -59,6 +61,9 @@ PROPS["C04"] = dict(
             ["--prop", "C04", "--config", "1", "--seq", "1", "--starts", "fresh,song,busy5", "--depth", "3"]),
         # a full chip (six key-down notes of one timbre) with and without auto-arpeggio: evictions and evacuations happen on the first note-on
         Leg("fullchip", RT_SRC, "fast", ["--prop", "C04", "--starts", "busy6same arp=1,busy6same", "--depth", "4"], ["--prop", "C04", "--starts", "busy6same arp=1,busy6same,busy6same arp=1 chips=2", "--depth", "5"]),
+        # focused alphabet (14 operations: two keys + a third note of the chip's timbre, releases of held keys, both pedals, two timbres, time) from pedal-down full-chip states: deeper histories
+        Leg("fullchip_deep", RT_SRC, "fast", ["--prop", "C04", "--starts", "busy6same arp=1 pedal seventh,busy6same arp=1 pedal,busy6same pedal seventh", "--only-ops", FOCUS_OPS, "--depth", "6"],
+            ["--prop", "C04", "--starts", "busy6same arp=1 pedal seventh,busy6same arp=1 pedal,busy6same pedal seventh,busy6same arp=1 pedal seventh chips=2", "--only-ops", FOCUS_OPS, "--depth", "8"], timeout_thorough=14000),
     ],
     rule="BFS over all call sequences; a state is distinct when any serialised field of the MIDI channels (controllers, active-note lists in order), chip channels (user lists in order, ages), "
          "setup, instrument caches, bank contents or the key-on bitmap differs (128-bit hash of the canonical serialisation)",
@@ -263,6 +268,9 @@ PROPS["C03"] = dict(
         Leg("rtbig", ["models/c03_api.cpp"], "asan", ["--subset", "rtbig", "--depth", "3"], ["--subset", "rtbig", "--depth", "4"], timeout_thorough=14000),
         Leg("cores", ["models/c03_api.cpp"], "asan", ["--subset", "cores", "--depth", "2"], ["--subset", "cores", "--depth", "3"], timeout_thorough=14000),
         Leg("banks", ["models/c03_api.cpp"], "asan", ["--subset", "banks", "--depth", "7"], ["--subset", "banks", "--depth", "9"], timeout_thorough=14000),
+        # the real-time note/pedal/arpeggio machinery from full-chip and busy start states with a focused alphabet and time steps long enough for key-on times to run out; oracle: memory safety and termination only
+        Leg("rtdeep", RT_SRC, "asan", ["--prop", "C03", "--starts", "busy6same arp=1,busy6same,busy5", "--only-ops", FOCUS_OPS_C03, "--depth", "6"],
+            ["--prop", "C03", "--starts", "busy6same arp=1,busy6same,busy5,nearfull chips=2", "--only-ops", FOCUS_OPS_C03, "--depth", "8"], timeout_thorough=14000),
     ],
     rule="BFS; state = full player + sequencer snapshot; the 'api' leg uses null chips, the 'cores' leg the real emulator cores",
     assumptions=RT_ASSUME[:2] + ["CPU budget 60 s per call (ITIMER_PROF); a worker death is attributed to the announced call and confirmed by replaying that history alone"],
